@@ -45,7 +45,7 @@ def run_config(args):
     mod = importlib.import_module(modname)
     out = {"id": cfg["id"], "h": cfg["h"], "paths": 0, "obligations": 0, "unsat": 0, "sat": 0,
            "unknown": 0, "trivial": 0, "failures": [], "inconclusive": [], "solver_s": 0.0,
-           "samples": [], "hashes": [], "aux": 0, "assumed": [], "exc_paths": 0, "unknown_branches": 0}
+           "samples": [], "hashes": [], "smt": [], "aux": 0, "assumed": [], "exc_paths": 0, "unknown_branches": 0}
     t0 = time.time()
     S.set_field(cfg.get("field", 4))
     fn = mod.HARNESSES[cfg["h"]]
@@ -89,11 +89,20 @@ def run_config(args):
                     obl = S.reduce_b(obl, ctx.rules)
                 dec = solve.decide_relaxed if name.endswith("~") else solve.decide   # "~": tolerance obligation over box-bounded inputs
                 cone = ctx.cone_pc(obl)      # goal-directed subset of the path condition: unsat there is sound
+                used_pc = cone
                 verdict, env, dt = dec(cone, obl)
                 if verdict != "unsat" and len(cone) != len(ctx.pc):
                     pc = ctx.relevant_pc(obl)   # exact: only definitions of auxiliary variables nothing refers to are dropped
+                    used_pc = pc
                     verdict, env, dt2 = dec(pc, obl)
                     dt += dt2
+                if obl.k != "c" and verdict in ("unsat", "sat") and len(out["smt"]) < 2 and (out["obligations"] + len(cfg["id"])) % 3 == 0:
+                    try:
+                        script = solve.smt2_script(used_pc, obl)
+                        if len(script) < 60000:
+                            out["smt"].append({"cfg": cfg["id"], "obligation": name, "z3": verdict, "script": script})
+                    except Exception:
+                        pass
                 out["solver_s"] += dt
                 if obl.k != "c":
                     txt = obl.smt2()
@@ -305,6 +314,10 @@ def main_check(modname, tier, seed, extra=None):
                 violations.append(v)
         harness_errors.extend(extra_info.get("harness_errors", []))
         inconcl.extend(extra_info.get("inconclusive", []))
+    # second solver: a seeded sample of the decided obligations is re-decided by cvc5 from the exported SMT-LIB text
+    second = _second_solver(results, tier, seed)
+    extra_info["second_solver"] = second["summary"]
+    harness_errors.extend(second["errors"])
     wall = time.time() - t0
     write_evidence(mod, tier, seed, cfgs, results, violations, known_hits, inconcl, harness_errors, wall, extra_info, nreplay)
     for pat, (k, hits) in sorted(known_hits.items()):
@@ -330,6 +343,35 @@ def main_check(modname, tier, seed, extra=None):
             print("INCONCLUSIVE %s: %s" % (cid, why))
         return 2
     return 0
+
+
+def _second_solver(results, tier, seed):
+    from . import solve
+    pool = []
+    for r in sorted(results, key=lambda r: r["id"]):
+        pool.extend(r.get("smt", []))
+    rnd = random.Random(seed * 31 + 7)
+    rnd.shuffle(pool)
+    k = 10 if tier == "quick" else 60
+    budget = 60 if tier == "quick" else 600
+    t0 = time.time()
+    agree = unknown = 0
+    errors = []
+    checked = 0
+    for item in pool[:k]:
+        if time.time() - t0 > budget:
+            break
+        v = solve.cvc5_decide(item["script"], timeout_ms=8000 if tier == "quick" else 20000)
+        checked += 1
+        if v in ("sat", "unsat"):
+            if v == item["z3"]:
+                agree += 1
+            else:
+                errors.append((item["cfg"], "solver disagreement on %s: z3 %s, cvc5 %s" % (item["obligation"], item["z3"], v)))
+        else:
+            unknown += 1
+    return {"summary": {"solver": "cvc5 (wheel)", "exported_obligations_available": len(pool), "rechecked": checked, "agree": agree,
+                        "cvc5_unknown_or_timeout": unknown, "disagree": len(errors), "seconds": round(time.time() - t0, 1)}, "errors": errors}
 
 
 def write_evidence(mod, tier, seed, cfgs, results, violations, known_hits, inconcl, harness_errors, wall, extra, nreplay):
